@@ -40,6 +40,9 @@ def run(ctx):
     # one statistic per controller: a handed-over statistic leaves the old list, so no two new controllers record into the same window
     from . import rules_C11
     rules_C11.rebuild(ctx, f, "flow", "build_resource_traffic_shaping_controller", cfg, R="C01.once/stat-handover")
+    # a rule's window may read the resource node's array only if it tiles it (otherwise tokens at the start of the window are forgotten)
+    from . import rules_C02
+    rules_C02.reuse_validator(ctx, f, cfg, R="C01.wiring/reuse-validator")
 
 
 def _reject_checkers(f):
